@@ -347,6 +347,9 @@ class C49(Check):
 
     def run_shard(self, tier, seed, shard, nshards):
         res = ShardResult()
+        if not jitlab.shard_enabled(shard):
+            res.dropped["shard-not-selected(VERIF_ONLY_SHARDS)"] += 1
+            return res
         cases = product(tier)
         # all cases of one (arch, instruction, position) program go to the same shard: its translated blocks are
         # compiled once (the gcc block cache is private to the shard's worker)
